@@ -621,6 +621,15 @@ func (w *World) c20Commits() {
 			}
 			num, _ := valInt(r.Vals[ts.Col("num")])
 			w.c20Progress[key] = num
+			// "each with that source's settings": the recorded hash is the hash
+			// of that block on the pair's own source (these chains only grow,
+			// and every source has a chain of its own)
+			if ss := w.srcs[s]; ss != nil && ss.node.Reorgs == 0 && num >= 0 {
+				h, _ := r.Vals[ts.Col("hash")].([]byte)
+				if b := ss.node.Canonical(uint64(num)); b != nil && len(h) == 32 && !bytes.Equal(b.Hash, h) {
+					w.violate("wrong-source-data", "pair %s recorded block %d with hash %x, which is not the block of its own source %s (data of another source's node?)", key, num, h[:4], s)
+				}
+			}
 			var ref model.SrcRef
 			for _, rf := range d.Sources {
 				if rf.Name == s {
